@@ -571,8 +571,31 @@ theorem encOne_noncstr (tn : String) (o : Option Name) (i : Nat) (k : FK) (v : F
   · exact absurd rfl hb
   · rfl
 
+/-- the names inside a field value -/
+def namesOfFV : FV → List Name
+  | .nm n => [n]
+  | .nl ns => ns
+  | .gw _ _ nm _ => [nm]
+  | _ => []
+
+/-- `n` can be written against the origin `O`: it is absolute, or `n ++ O` is at most 255 octets on the wire
+(`Name.to_wire` raises `NameTooLong` otherwise, as it raises `NeedAbsoluteNameOrOrigin` without an origin) -/
+def NameFits (O : Name) (n : Name) : Prop := isAbs n = true ∨ (toWire (n ++ O)).length ≤ 255
+
+def NamesFit (O : Name) (vals : List FV) (tail : Option FV) : Prop :=
+  (∀ v ∈ vals, ∀ n ∈ namesOfFV v, NameFits O n) ∧ (∀ t, tail = some t → ∀ n ∈ namesOfFV t, NameFits O n)
+
+theorem encName_isSome (O : Name) (hO : isAbs O = true) (n : Name) (hf : NameFits O n) : (encName (some O) n).isSome = true := by
+  unfold encName
+  by_cases ha : isAbs n = true
+  · simp [ha]
+  · rcases hf with hf | hf
+    · exact absurd hf ha
+    · have : ¬ (toWire (n ++ O)).length > 255 := by omega
+      simp [ha, hO, this]
+
 theorem field_encodable (tn : String) (env : PEnv) (O : Name) (hO : isAbs O = true) (i : Nat) (k : FK) (t : Tok) (v : FV)
-    (h : parseField env k t = some v) (hk : WireKind tn i k = true) :
+    (h : parseField env k t = some v) (hk : WireKind tn i k = true) (hfit : ∀ n ∈ namesOfFV v, NameFits O n) :
     (encOne tn (some O) i k v).isSome = true := by
   cases k with
   | uint max =>
@@ -603,8 +626,7 @@ theorem field_encodable (tn : String) (env : PEnv) (O : Name) (hO : isAbs O = tr
     | some n =>
       simp only [hn, Option.map_some, Option.some.injEq] at h
       subst h
-      simp only [encField, encName, hO, if_true]
-      split <;> rfl
+      exact encName_isSome O hO n (hfit n (by simp [namesOfFV]))
   | nameRaw =>
     rw [encOne_noncstr _ _ _ _ _ (by intro a b c e; cases e) (by intro e; cases e)]
     simp only [parseField] at h
@@ -613,8 +635,7 @@ theorem field_encodable (tn : String) (env : PEnv) (O : Name) (hO : isAbs O = tr
     | some n =>
       simp only [hn, Option.map_some, Option.some.injEq] at h
       subst h
-      simp only [encField, encName, hO, if_true]
-      split <;> rfl
+      exact encName_isSome O hO n (hfit n (by simp [namesOfFV]))
   | cstr mt mb q =>
     simp only [parseField] at h
     split at h
@@ -732,15 +753,16 @@ def wireKinds (tn : String) : Nat → List FK → Bool
 theorem fields_encodable (tn : String) (env : PEnv) (O : Name) (hO : isAbs O = true) (ks : List FK) :
     ∀ (i : Nat) (toks : List Tok) (vals : List FV) (rest : List Tok),
       parseFields env ks toks = some (vals, rest) → wireKinds tn i ks = true →
+      (∀ v ∈ vals, ∀ n ∈ namesOfFV v, NameFits O n) →
       (encFields tn (some O) i ks vals).isSome = true := by
   induction ks with
   | nil =>
-    intro i toks vals rest h _
+    intro i toks vals rest h _ _
     simp only [parseFields] at h
     injection h with h; injection h with h1 h2; subst h1
     rfl
   | cons k ks ih =>
-    intro i toks vals rest h hk
+    intro i toks vals rest h hk hfit
     cases toks with
     | nil => simp [parseFields] at h
     | cons t ts =>
@@ -757,8 +779,8 @@ theorem fields_encodable (tn : String) (env : PEnv) (O : Name) (hO : isAbs O = t
           obtain ⟨h1, _⟩ := h
           subst h1
           rw [encFields_cons]
-          have e1 := field_encodable tn env O hO i k t v hv hk.1
-          have e2 := ih (i + 1) ts vs rest' hr hk.2
+          have e1 := field_encodable tn env O hO i k t v hv hk.1 (hfit v (by simp))
+          have e2 := ih (i + 1) ts vs rest' hr hk.2 (fun w hw => hfit w (by simp [hw]))
           cases ha : encOne tn (some O) i k v with
           | none => simp [ha] at e1
           | some a =>
@@ -827,7 +849,8 @@ theorem aplBody_encodable (neg : Bool) (item : List Nat) (it : Nat × Bool × By
     · cases h
     · split at h
       · cases h
-      · split at h
+      · rename_i hf65
+        split at h
         · cases h
         · split at h
           · cases h
@@ -857,7 +880,20 @@ theorem aplBody_encodable (neg : Bool) (item : List Nat) (it : Nat × Bool × By
                       omega
                     · cases h
                   · cases h
-                · cases h
+                · split at h
+                  · cases h
+                  · rename_i hlen
+                    split at h
+                    · rename_i a ha
+                      split at h
+                      · injection h with h; subst h
+                        have hl := unhexlify_length _ _ ha
+                        have := trimZeros_length_le a
+                        apply packGuard_isSome
+                        simp only [Bool.and_eq_true, decide_eq_true_eq]
+                        omega
+                      · cases h
+                    · cases h
 
 theorem aplItem_encodable (t : Tok) (it : Nat × Bool × Bytes × Nat) (h : parseAplItem t = some it) :
     (encAplItem it).isSome = true := by
@@ -890,7 +926,7 @@ theorem apl_encodable (toks : List Tok) (items : List (Nat × Bool × Bytes × N
     · cases h
 
 theorem gatewayTok_encodable (env : PEnv) (O : Name) (hO : isAbs O = true) (ty : Nat) (t : Tok) (addr : List Nat) (nm : Name)
-    (h : parseGatewayTok env ty t = some (addr, nm)) : (encGateway (some O) ty addr nm).isSome = true := by
+    (h : parseGatewayTok env ty t = some (addr, nm)) (hf : NameFits O nm) : (encGateway (some O) ty addr nm).isSome = true := by
   unfold parseGatewayTok at h
   unfold encGateway
   split at h
@@ -923,13 +959,13 @@ theorem gatewayTok_encodable (env : PEnv) (O : Name) (hO : isAbs O = true) (ty :
       | some n =>
         simp only [hn, Option.map_some, Option.some.injEq, Prod.mk.injEq] at h
         obtain ⟨_, rfl⟩ := h
-        simp only [h3, encName, hO]
-        simp
-        split <;> rfl
+        simp only [h3]
+        simpa using encName_isSome O hO n hf
     · cases h
 
 theorem tail_encodable (env : PEnv) (O : Name) (hO : isAbs O = true) (vals : List FV) (tk : TK) (toks : List Tok) (tail : Option FV)
-    (h : parseTailE env vals tk toks = some tail) (hk : WireTail tk = true) : (encTail (some O) tk tail).isSome = true := by
+    (h : parseTailE env vals tk toks = some tail) (hk : WireTail tk = true)
+    (hfit : ∀ t, tail = some t → ∀ n ∈ namesOfFV t, NameFits O n) : (encTail (some O) tk tail).isSome = true := by
   unfold parseTailE at h
   cases tk with
   | names => cases hk
@@ -966,24 +1002,23 @@ theorem tail_encodable (env : PEnv) (O : Name) (hO : isAbs O = true) (vals : Lis
       split at h
       · cases h
       · rename_i addr nm hg
-        have hgw := gatewayTok_encodable env O hO ty t addr nm hg
-        cases hge : encGateway (some O) ty addr nm with
-        | none => simp [hge] at hgw
-        | some g =>
+        have htl : ∃ key, tail = some (.gw ty addr nm key) := by
           split at h
           · split at h
-            · injection h with h; subst h; simp [encTail, hge]
+            · injection h with h; exact ⟨[], h.symm⟩
             · cases h
           · split at h
             · split at h
-              · obtain ⟨k, rfl⟩ : ∃ k, tail = some (.gw ty addr nm k) := by
-                  rename_i s _
-                  cases hd : b64Decode s with
-                  | none => simp [hd] at h
-                  | some k => simp [hd] at h; exact ⟨k, h.symm⟩
-                simp [encTail, hge]
+              · rename_i s _
+                cases hd : b64Decode s with
+                | none => simp [hd] at h
+                | some k => simp [hd] at h; exact ⟨k, h.symm⟩
               · cases h
             · cases h
+        obtain ⟨key, rfl⟩ := htl
+        have hf := hfit _ rfl nm (by simp [namesOfFV])
+        obtain ⟨g, hge⟩ := Option.isSome_iff_exists.mp (gatewayTok_encodable env O hO ty t addr nm hg hf)
+        simp [encTail, hge]
     · cases h
   | apl =>
     simp only [parseTail] at h
@@ -1087,7 +1122,8 @@ def schemaEncodable (tn : String) (sch : Schema) : Bool :=
 
 theorem record_encodable (tn : String) (sch : Schema) (env : PEnv) (O : Name) (hO : isAbs O = true)
     (hs : schemaEncodable tn sch = true) (toks : List Tok) (vals : List FV) (tail : Option FV)
-    (h : parseRec sch env toks = some (vals, tail)) : (encRecG tn sch (some O) vals tail).isSome = true := by
+    (h : parseRec sch env toks = some (vals, tail)) (hfit : NamesFit O vals tail) :
+    (encRecG tn sch (some O) vals tail).isSome = true := by
   unfold parseRec at h
   simp only [schemaEncodable, Bool.and_eq_true] at hs
   obtain ⟨hf, ht⟩ := hs
@@ -1099,8 +1135,8 @@ theorem record_encodable (tn : String) (sch : Schema) (env : PEnv) (O : Name) (h
     · rename_i tail' hpt
       split at h
       · injection h with h; injection h with h1 h2; subst h1; subst h2
-        have e1 := fields_encodable tn env O hO sch.fields 0 toks vals' rest hpf hf
-        have e2 := tail_encodable env O hO vals' sch.tail rest tail' hpt ht
+        have e1 := fields_encodable tn env O hO sch.fields 0 toks vals' rest hpf hf hfit.1
+        have e2 := tail_encodable env O hO vals' sch.tail rest tail' hpt ht hfit.2
         unfold encRecG
         cases ha : encFields tn (some O) 0 sch.fields vals' with
         | none => simp [ha] at e1
@@ -1131,20 +1167,15 @@ theorem parseFields_cons_inv (env : PEnv) (k : FK) (ks : List FK) (toks : List T
         subst h1; subst h2
         exact ⟨t, ts, v, vs, rfl, hv, hr, rfl⟩
 
-theorem encNames_isSome (O : Name) (hO : isAbs O = true) (ns : List Name) : (encNames (some O) ns).isSome = true := by
+theorem encNames_isSome (O : Name) (hO : isAbs O = true) (ns : List Name) (hf : ∀ n ∈ ns, NameFits O n) :
+    (encNames (some O) ns).isSome = true := by
   induction ns with
   | nil => rfl
   | cons n r ih =>
-    have e1 : (encName (some O) n).isSome = true := by
-      simp only [encName, hO, if_true]
-      split <;> rfl
-    simp only [encNames]
-    cases ha : encName (some O) n with
-    | none => simp [ha] at e1
-    | some a =>
-      cases hb : encNames (some O) r with
-      | none => simp [hb] at ih
-      | some b => rfl
+    obtain ⟨a, ha⟩ := Option.isSome_iff_exists.mp (encName_isSome O hO n (hf n (by simp)))
+    obtain ⟨b, hb⟩ := Option.isSome_iff_exists.mp (ih (fun m hm => hf m (by simp [hm])))
+    simp only [encNames, ha, hb]
+    rfl
 
 theorem hexOne_len (t : Tok) (v : FV) (h : parseFieldExtra .hexOne t = some v) : ∃ b, v = .b b ∧ b.length ≤ 255 := by
   simp only [parseFieldExtra] at h
@@ -1157,8 +1188,8 @@ theorem hexOne_len (t : Tok) (v : FV) (h : parseFieldExtra .hexOne t = some v) :
   · cases h
 
 theorem hip_encodable (sch : Schema) (hs : schemaOf "HIP" = some sch) (env : PEnv) (O : Name) (hO : isAbs O = true)
-    (toks : List Tok) (vals : List FV) (tail : Option FV) (h : parseRec sch env toks = some (vals, tail)) :
-    (encHip (some O) vals tail).isSome = true := by
+    (toks : List Tok) (vals : List FV) (tail : Option FV) (h : parseRec sch env toks = some (vals, tail))
+    (hfit : NamesFit O vals tail) : (encHip (some O) vals tail).isSome = true := by
   simp only [schemaOf, Option.some.injEq] at hs
   subst hs
   unfold parseRec at h
@@ -1187,7 +1218,7 @@ theorem hip_encodable (sch : Schema) (hs : schemaOf "HIP" = some sch) (env : PEn
         | some ns =>
           simp only [hn, Option.map_some, Option.some.injEq] at hpt
           subst hpt
-          have e2 := encNames_isSome O hO ns
+          have e2 := encNames_isSome O hO ns (fun n hn' => hfit.2 _ rfl n (by simpa [namesOfFV] using hn'))
           have e1 : (packGuard (decide (hit.length < 256) && decide (alg < 256) && decide (key.length < 65536))
               ([hit.length, alg] ++ beBytes 2 key.length ++ hit ++ key)).isSome = true :=
             packGuard_isSome _ _ (by simp; omega)
